@@ -12,6 +12,7 @@ import (
 	"testing"
 	"time"
 
+	"verifsim/seams"
 	"verifsim/simkit"
 	"verifsim/world"
 )
@@ -50,10 +51,11 @@ func newWebPair(s *simkit.Sim, rc *simkit.RunCtx, simSession bool, statusList bo
 	w := world.New(s, rc)
 	p := &webPair{w: w}
 	var err error
-	if p.as, err = w.StartNode(world.NodeOpts{Name: "nodea", DIDMethods: "web", Web: true, SimSession: simSession}); err != nil {
+	env := map[string]string{"NUTS_AUTH_AUTHORIZATIONENDPOINT_ENABLED": "true"}
+	if p.as, err = w.StartNode(world.NodeOpts{Name: "nodea", DIDMethods: "web", Web: true, SimSession: simSession, Env: env}); err != nil {
 		return p, err
 	}
-	if p.cl, err = w.StartNode(world.NodeOpts{Name: "nodeb", DIDMethods: "web", Web: true}); err != nil {
+	if p.cl, err = w.StartNode(world.NodeOpts{Name: "nodeb", DIDMethods: "web", Web: true, SimSession: simSession, Env: env}); err != nil {
 		return p, err
 	}
 	da, err := p.as.CreateSubject("vendorA")
@@ -87,7 +89,7 @@ func c05Body(s *simkit.Sim, rc *simkit.RunCtx) {
 		s.Fail("C05.harness", "setup", "%v", err)
 		return
 	}
-	kinds := []string{"s2s-nonce", "dpop-jti", "s2s-nonce-future-dated"}
+	kinds := []string{"s2s-nonce", "dpop-jti", "s2s-nonce-future-dated", "authorization-code", "authorization-code", "request-object", "openid4vp-nonce"}
 	kind := kinds[s.D.Decide("kind", len(kinds))]
 	k := 2 + s.D.Decide("concurrent", 2)
 	futureDated := kind == "s2s-nonce-future-dated"
@@ -147,6 +149,98 @@ func c05Body(s *simkit.Sim, rc *simkit.RunCtx) {
 			}
 			return world.IsTokenResponse(code, body)
 		}
+	case "authorization-code", "request-object", "openid4vp-nonce":
+		// The OpenID4VP user flow (RFC021 user access token) between the two nodes, the workload playing the
+		// user's browser. The request that carries the one-time value is lost on the wire once, so that the value
+		// is fresh; then it is delivered: concurrently, later again, and - for the code - after a failed attempt.
+		roHost := []string{"nodeb.sim", "nodea.sim"}[s.D.Decide("which-request-object", 2)]
+		target := map[string]func(req *http.Request) bool{
+			"authorization-code": func(req *http.Request) bool {
+				return req.Method == "POST" && strings.HasSuffix(req.URL.Path, "/oauth2/vendorA/token")
+			},
+			"request-object": func(req *http.Request) bool {
+				return req.Method == "GET" && strings.Contains(req.URL.Path, "/request.jwt/") && req.URL.Host == roHost
+			},
+			"openid4vp-nonce": func(req *http.Request) bool {
+				return req.Method == "POST" && strings.HasSuffix(req.URL.Path, "/oauth2/vendorA/response")
+			},
+		}[kind]
+		p.w.HTTP.KeepBodies = true
+		lost := false
+		p.w.HTTP.LoseIf = func(req *http.Request) bool {
+			if !lost && target(req) {
+				lost = true
+				return true
+			}
+			return false
+		}
+		code, body := p.cl.Call("POST", "/internal/auth/v2/vendorB/request-user-access-token", map[string]interface{}{
+			"authorization_server": p.asServer, "scope": "simple", "redirect_uri": "https://app.sim/callback",
+			"preauthorized_user": map[string]string{"id": "1", "name": "John Doe", "role": "Janitor"}})
+		var start struct {
+			RedirectURI string `json:"redirect_uri"`
+		}
+		_ = json.Unmarshal(body, &start)
+		if code != 200 || start.RedirectURI == "" {
+			s.Fail("C05.harness", "user-flow", "request-user-access-token: %d %s", code, body)
+			return
+		}
+		p.w.Browse(start.RedirectURI, map[string][]*http.Cookie{}, 10)
+		p.w.HTTP.LoseIf = nil
+		var rec *seams.HTTPRecord
+		for _, r := range p.w.HTTP.Requests() {
+			if r.Fault == seams.HTTPReqLost {
+				r := r
+				rec = &r
+			}
+		}
+		if rec == nil {
+			s.Fail("C05.harness", "capture", "the %s request did not occur in the user flow", kind)
+			return
+		}
+		honoured := func(code int, body []byte) bool {
+			switch kind {
+			case "authorization-code":
+				return world.IsTokenResponse(code, body)
+			case "request-object":
+				return code == 200 && strings.Count(string(body), ".") == 2
+			default:
+				return code == 200 && strings.Contains(string(body), "redirect_uri") && strings.Contains(string(body), "code=")
+			}
+		}
+		if kind == "authorization-code" && s.D.Decide("failed-attempt-first", 3) == 2 {
+			// "an authorization code is also dead after any failed redemption attempt"
+			bad := *rec
+			form, _ := url.ParseQuery(string(rec.ReqBody))
+			switch s.D.Decide("failed-attempt-kind", 3) {
+			case 0:
+				form.Set("code_verifier", "wrong-"+form.Get("code_verifier"))
+			case 1:
+				form.Set("client_id", "https://someone-else.sim/oauth2/x")
+			default:
+				form.Del("code_verifier")
+			}
+			bad.ReqBody = []byte(form.Encode())
+			if c, b := p.w.Redeliver(bad); honoured(c, b) {
+				s.Fail("C05.once.authorization-code", "wrong-verifier-honoured", "a token request with a wrong client id / PKCE verifier was honoured")
+				return
+			}
+			sample.Kind = "authorization-code (after a failed redemption attempt)"
+			if c, b := p.w.Redeliver(*rec); honoured(c, b) {
+				s.Fail("C05.once.authorization-code", "alive-after-failed-attempt", "an authorization code was honoured after a failed redemption attempt with it")
+				return
+			}
+			s.Info.Inc("code-dead-after-failed-attempt")
+			rc.Nontrivial = true
+			return
+		}
+		fire = func() bool {
+			c, b := p.w.Redeliver(*rec)
+			if os.Getenv("C05DEBUG") != "" {
+				fmt.Println("REDELIVER", kind, c, trunc(strings.Join(strings.Fields(string(b)), " "), 300))
+			}
+			return honoured(c, b)
+		}
 	case "dpop-jti":
 		tr := p.cl.RequestServiceToken("vendorB", p.asServer, "simple", "", true)
 		if tr.Code != 200 || tr.DPoPKid == "" {
@@ -186,6 +280,7 @@ func c05Body(s *simkit.Sim, rc *simkit.RunCtx) {
 		ops = append(ops, fmt.Sprintf("%s:%s:%v", s.Label(), kind, found))
 		opsMu.Unlock()
 	}
+	p.cl.Session.OnOp = p.as.Session.OnOp
 	var successes atomic.Int32
 	var running atomic.Int32
 	s.Enable(true)
@@ -201,6 +296,7 @@ func c05Body(s *simkit.Sim, rc *simkit.RunCtx) {
 	s.RunUntil(func() bool { return running.Load() == 0 }, time.Minute, 100*time.Millisecond)
 	s.Enable(false)
 	p.as.Session.OnOp = nil
+	p.cl.Session.OnOp = nil
 	sample.Successes = int(successes.Load())
 	sample.Interleave = strings.Join(ops, " ")
 	rc.Signature = kind + "|" + sample.Interleave
